@@ -112,6 +112,9 @@ static const std::vector<Kind>& kinds() {
                        {"end", 5, "flush; round; half-width; extended; smooth"},
                        {"scale_width", 2, "true; false"},
                        {"rep", 2, "none; rect 2x1 spacing (12.5,3)"}}},
+        // long records written by gdstk: one XY record of up to 8190 pairs, names / texts up to the 65530-byte maximum
+        {"longrec", {{"what", 4, "polygon with N vertices; library name of N bytes; cell name of N bytes + a reference to it; label text of N bytes"},
+                     {"size", 6, "polygon N = 4094,4095,4096,4097,8188,8189 vertices (+1 closing pair); strings N = 32763,32764,32766,40000,65529,65530"}}},
         {"prophist", {{"element", 4, "polygon; simple path; label; reference"},
                       {"op1", 11, "see above"}, {"op2", 11, "see above"}, {"op3", 11, "see above"}, {"op4", 11, "see above"}}},
     };
@@ -347,6 +350,42 @@ static bool build_family(Library& lib, int libcfg, const std::string& kind, cons
                 r->repetition.spacing = Vec2{5, 7};
             }
             top->reference_array.append(r);
+        }
+    } else if (kind == "longrec") {
+        static const int NV[] = {4094, 4095, 4096, 4097, 8188, 8189}, NS[] = {32763, 32764, 32766, 40000, 65529, 65530};
+        if (p[0] == 0) {
+            Polygon* g = (Polygon*)allocate_clear(sizeof(Polygon));
+            g->tag = make_tag(2, 3);
+            int nv = NV[p[1]];
+            for (int i = 0; i < nv; i++) {
+                double a = 2 * M_PI * i / nv;
+                g->point_array.append(Vec2{round(1e6 * cos(a)) * DB, round(1e6 * sin(a)) * DB});
+            }
+            top->polygon_array.append(g);
+        } else {
+            std::string body;
+            std::string unit = "N" + std::to_string(NS[p[1]]) + "_";
+            while ((int)body.size() < NS[p[1]]) body += unit;
+            body.resize(NS[p[1]]);
+            if (p[0] == 1) {
+                free_allocation(lib.name);
+                lib.name = copy_string(body.c_str(), NULL);
+            } else if (p[0] == 2) {
+                free_allocation(kid->name);
+                kid->name = copy_string(body.c_str(), NULL);
+                Reference* r = (Reference*)allocate_clear(sizeof(Reference));
+                r->type = ReferenceType::Cell;
+                r->cell = kid;
+                r->magnification = 1;
+                r->origin = Vec2{2, 3};
+                top->reference_array.append(r);
+            } else {
+                Label* l = (Label*)allocate_clear(sizeof(Label));
+                l->magnification = 1;
+                l->text = copy_string(body.c_str(), NULL);
+                l->origin = Vec2{1, 1};
+                top->label_array.append(l);
+            }
         }
     } else if (kind == "multipath") {
         int nel = p[1] + 2, nseg = p[2] + 1;
